@@ -1,4 +1,4 @@
 SPECIFICATION Spec
-CONSTANTS L = 3  MaxV = 3  NL = {0, 1}  N = 2  E = 2  A = 2  I = 1  Fam = {"script", "forget"}  BinK = {"add", "mul", "xor"}
+CONSTANTS L = 3  MaxV = 3  NL = {0, 1}  N = 2  E = 2  A = 2  I = 1  Fam = {"script", "forget"}  BinK = {"add", "mul", "xor", "sub", "and", "or", "div", "shl", "shr"}
 INVARIANTS BuildTheorem ForgetTheorem
 CHECK_DEADLOCK FALSE
